@@ -8,7 +8,7 @@ HOOK_COMMITS = ["d85c6ee", "170bde9", "43ffa35", "8043914", "4c6f2d6", "8d2eb59"
 CHECKS = {
  "C20": ("E1-simnet-explorer", "model_checking",
    "three parts: (a) quiescence snapshots after every enumerated call-overlap and single-fault schedule on a real node, (b) explicit-state BFS over the real Server with small capacities against an exact-LRU reference plus a cache-rolling history on a real node, (c) exhaustive enumeration of lookup/put histories on a real node with the statistics counters recomputed from the cached lookups after every step",
-   "(a) every ordered pair of the 13 API calls at three placements and every single-fault schedule of every single call is followed by a quiet period, after which the node snapshot must hold no per-call state; (b) all request histories to depth 4 (quick) / 6 (thorough) against Servers with capacities 1..3 and asymmetric shapes, and 1007 lookups over 1003 targets rolling the 1000-entry lookup cache; (c) all 15^3 (quick) / 15^4 (thorough) histories over 5 operations x 3 targets plus a 3-hour refresh timeline, counters compared after every completed lookup.",
+   "(a) every ordered pair of the 13 API calls at every placement of the second call inside the first call's lifetime and every single-fault schedule of every single call is followed by a quiet period, after which the node snapshot must hold no per-call state; (b) all request histories to depth 4 (quick) / 6 (thorough) against Servers with capacities 1..3 and asymmetric shapes, and 1007 lookups over 1003 targets rolling the 1000-entry lookup cache; (c) all 15^3 (quick) / 15^4 (thorough) histories over 5 operations x 3 targets plus a 3-hour refresh timeline, counters compared after every completed lookup.",
    "Floating-point sums compared with a tolerance scaled by the largest sample seen; an early eviction of the LRU entry is accepted.", "DESIGN.md section 6, C20"),
   "C14": ("E1-simnet-explorer", "model_checking",
    "exhaustive enumeration of single (thorough: pairs of) timeline deviations over multi-hour virtual-time runs of real nodes on the simulated network; oracle from the datagram log at every maintenance boundary",
